@@ -214,3 +214,50 @@ modelled! {
         std::mem::forget(it); std::mem::forget(decls); std::mem::forget(defs); std::mem::forget(report); std::mem::forget(ast);
     }
 }
+
+modelled! {
+    #[kani::unwind(2)]
+    fn c06_a_overlap4() { overlap_n::<4>() }
+}
+
+modelled! {
+    #[kani::unwind(6)]
+    fn c06_b_bank_windows3() {
+        // three user banks: any two whose output windows share a bit are rejected
+        reset_report_model();
+        let mut report = diagn::Report::new();
+        let decls = decls_with_banks(4);
+        let mut defs = asm::defs::init();
+        defs.bankdefs.define(util::ItemRef::new(0), bank(0, 8, 0, None, Some(0), false));
+        let mut s = [None; 3];
+        let mut o = [None; 3];
+        let mut i = 0;
+        while i < 3 {
+            s[i] = any_opt40();
+            o[i] = any_opt40();
+            defs.bankdefs.define(util::ItemRef::new(i + 1), bank(i + 1, 8, 0, s[i], o[i], false));
+            i += 1;
+        }
+        let r = asm::output::check_bank_overlap(&mut report, &decls, &defs);
+        let mut strict = false;
+        let mut weak = false;
+        let mut a = 0;
+        while a < 3 {
+            let mut b = a + 1;
+            while b < 3 {
+                if let (Some(x), Some(y)) = (o[a], o[b]) {
+                    let (st, wk) = windows(x, s[a], y, s[b]);
+                    strict = strict || st;
+                    weak = weak || wk;
+                }
+                b += 1;
+            }
+            a += 1;
+        }
+        assert!(!(r.is_ok() && strict), "banks whose output windows share a bit were accepted");
+        assert!(r.is_ok() || weak, "banks with pairwise disjoint output windows were rejected");
+        kani::cover!(r.is_err() && o[0].is_some() && o[2].is_some() && o[1].is_none(), "first and third bank overlap");
+        kani::cover!(r.is_ok() && o[0].is_some() && o[1].is_some() && o[2].is_some(), "three disjoint output banks");
+        std::mem::forget(decls); std::mem::forget(defs); std::mem::forget(report);
+    }
+}
